@@ -20,6 +20,24 @@ reg('C09',
     'float64 integer arithmetic below 2^53 is exact; JAX CPU backend evaluates the same expressions users run',
     'DESIGN.md section 4 C09')
 
+reg('C19',
+    'property-based testing (Hypothesis): differential against a NumPy double-sum GAE written from the definition; gradient and column-independence metamorphic checks',
+    'No counter-example among thousands of generated (T<=12, B<=4) reward/value/mask batches incl. all-zero/all-one/last-step/consecutive '
+    'end patterns and lambda/discount end points: value targets and advantages equal the defining double sum at 1e-10, the outputs carry '
+    'exactly zero gradient, and a column is bit-identical when the other columns are rewritten. Sampling, not proof.',
+    'masks are 0/1 and mutually exclusive per step; float64',
+    'DESIGN.md section 4 C19')
+
+reg('C20',
+    'property-based testing (Hypothesis): differential against an independent NumPy tanh-normal density, quadrature of the squashed density, '
+    'sampler moment test over 4096 derived keys, PPO policy against a hand-written NumPy MLP on normalised observations',
+    'No counter-example among generated parameters/actions (|x| up to 40 and +-1e3, scales down to 1e-6): range, mode, scale floor, '
+    'log_prob, log-det-Jacobian (finite, even, accurate), normalisation to 1 by quadrature, entropy, inverse, determinism and '
+    'reparameterisation; PPO inference fn returns tanh(raw), that log_prob and raw action, or the mode, for array and dict observations '
+    'with every policy_obs_key and non-trivial normaliser statistics. Sampling, not proof.',
+    'min_std/var_scale >= 1e-3; NumPy/float64 reference; brax.v1 import stubbed (type aliases only)',
+    'DESIGN.md section 4 C20')
+
 PENDING = {}
 
 
